@@ -211,10 +211,17 @@ func (ci *ChunkInfo) getUnRepeatChunk(rootCid boson.Address) []*PyramidCidNum {
 	if err != nil {
 		return nil
 	}
+	// a file whose pyramid is registered holds one reference to each of its chunks itself; an
+	// unregistered file (already deleted, or never recorded) holds none, so every reference
+	// then belongs to another file
+	var own uint
+	if _, ok := ci.cp.hashData[rootCid.String()]; ok {
+		own = 1
+	}
 	cids := make([]*PyramidCidNum, 0, len(v.cids)+len(mate))
 	for overlay, c := range v.cids {
 		v := ci.cp.chunk[overlay]
-		if v > 1 {
+		if v > own {
 			continue
 		}
 		over := boson.MustParseHexAddress(overlay)
@@ -224,7 +231,7 @@ func (ci *ChunkInfo) getUnRepeatChunk(rootCid boson.Address) []*PyramidCidNum {
 
 	for overlay := range mate {
 		c := ci.cp.chunk[overlay]
-		if c > 1 {
+		if c > own {
 			continue
 		}
 		if _, ok := v.cids[overlay]; !ok {
@@ -316,6 +323,10 @@ func (cp *chunkPyramid) delChunk(cid boson.Address) {
 }
 
 func (ci *ChunkInfo) delRootCid(rootCID boson.Address, pyr pyramid, hashs []string) bool {
+	if _, ok := ci.cp.hashData[rootCID.String()]; !ok {
+		// not registered: the reference counts hold nothing of this file to release
+		return true
+	}
 	for _, cid := range hashs {
 		ci.cp.delChunk(boson.MustParseHexAddress(cid))
 	}
